@@ -287,8 +287,8 @@ def _check_op(case):
     return res
 
 
-def _integral(name, phi, geo):
-    if name == 'SphericalGrid3D':
+def _integral(name, phi, geo, reported=False):
+    if name == 'SphericalGrid3D' and not reported:
         return float((geo.Vd * np.asarray(phi.value)).sum())
     return float(phi.domainIntegral())
 
@@ -299,7 +299,8 @@ def _check_solve(case):
     name = P['name']
     d = dims_of(P['faces'])
     geo = oracle.Geometry(name, P['faces'])
-    if name == 'SphericalGrid3D':
+    demo = case.get('demo')          # replay of a known finding: the exclusion is lifted and failures carry its id
+    if name == 'SphericalGrid3D' and demo != 'K1':
         res.excluded.append('K1')
     if case['periodic_axes']:
         res.excluded.append('K2')
@@ -307,6 +308,8 @@ def _check_solve(case):
             res.excluded.append('K7')
     m, BC, phi = problem.build_var(P)
     V, Af = measure(name, m, geo)
+    if demo == 'K1':
+        V = np.asarray(m.cellvolume, float)
     nrm = problem.opnorm(m, P)
     if not np.isfinite(nrm):
         res.discarded = True
@@ -314,7 +317,7 @@ def _check_solve(case):
     dt = P["theta"] / (nrm if nrm > 0 else 1.0)
     tag = f"{P['scheme']}:{name}"
     if case['closed']:
-        I0 = _integral(name, phi, geo)
+        I0 = _integral(name, phi, geo, demo == 'K1')
         for k in range(P['steps']):
             old = np.array(phi.value)
             problem.step_implicit(m, phi, P, dt)
@@ -322,32 +325,32 @@ def _check_solve(case):
             if not np.all(np.isfinite(new)):
                 res.discarded = True
                 return res
-            I1 = _integral(name, phi, geo)
+            I1 = _integral(name, phi, geo, demo == 'K1')
             S = float((np.abs(V) * (np.abs(old) + np.abs(new))).sum()) + 1e-300
             tol = 1e-10 + 1e-13 * P['theta']
             res.expect_small("closed-implicit", abs(I1 - I0) / S, tol, f"closed-implicit:{tag}",
                              f"domainIntegral changed over a closed implicit step ({P['scheme']}, {name}, "
-                             f"periodic axes {case['periodic_axes']})")
+                             f"periodic axes {case['periodic_axes']})", known=demo if demo in ('K1', 'K7') else None)
             I0 = I1
         # explicit steps, same closed problem
         m, BC, phi = problem.build_var(P)
         A, s = problem.spatial_operator(m, P)
         dte = P["theta_explicit"] / (nrm if nrm > 0 else 1.0)
-        I0 = _integral(name, phi, geo)
+        I0 = _integral(name, phi, geo, demo == 'K1')
         for k in range(P['steps']):
             rhs = -(A @ np.asarray(phi._value).ravel())
             if P['scheme'] == 'tvd':
                 rhs = rhs + pf.convectionTVDupwindRHSTerm(mk_face(m, P['u']), phi, pf.fluxLimiter(P['FL']))
             old = np.array(phi.value)
             phi = pf.solveExplicitPDE(phi, dte, rhs)
-            I1 = _integral(name, phi, geo)
+            I1 = _integral(name, phi, geo, demo == 'K1')
             S = float((np.abs(V) * (np.abs(old) + np.abs(np.array(phi.value)))).sum()) + 1e-300
             res.expect_small("closed-explicit", abs(I1 - I0) / S, 1e-10, f"closed-explicit:{tag}",
                              f"domainIntegral changed over a closed explicit step ({P['scheme']}, {name}, "
-                             f"periodic axes {case['periodic_axes']})")
+                             f"periodic axes {case['periodic_axes']})", known=demo if demo in ('K1', 'K2', 'K7') else None)
             I0 = I1
     else:
-        I0 = _integral(name, phi, geo)
+        I0 = _integral(name, phi, geo, demo == 'K1')
         old = np.array(phi.value)
         oldfull = np.array(phi._value)
         tvd = None
@@ -359,7 +362,7 @@ def _check_solve(case):
         if not np.all(np.isfinite(full)):
             res.discarded = True
             return res
-        I1 = _integral(name, phi, geo)
+        I1 = _integral(name, phi, geo, demo == 'K1')
         # net boundary flux of the new field (convective - diffusive), non-periodic axes only contribute
         flux = 0.0
         ab = 0.0
